@@ -280,7 +280,9 @@ func (c *connection) handle(ctx context.Context) {
 		}
 
 		verifPoint("conn.beforeHandled")
-		c.isBeingHandled.Store(true)
+		if !c.isBeingHandled.CompareAndSwap(false, true) {
+			return // Shutdown has claimed this connection and is closing it
+		}
 		toSend, closeConn := c.assembler.ReceiveRead(cCtx, received[0:n], n)
 		if toSend != nil {
 			_ = conn.SetWriteDeadline(time.Now().Add(wTimeout))
@@ -321,7 +323,8 @@ func (s *Server) Shutdown(ctx context.Context) error {
 	for {
 		allIdle := true
 		for c := range s.activeConnections {
-			if c.isBeingHandled.Load() {
+			// claim the connection so its goroutine can not start handling a request while we are closing it
+			if !c.isBeingHandled.CompareAndSwap(false, true) {
 				allIdle = false
 				continue
 			}
